@@ -20,6 +20,7 @@ import (
 	"github.com/fatedier/frp/pkg/metrics"
 	"github.com/fatedier/frp/pkg/msg"
 	"github.com/fatedier/frp/pkg/transport"
+	netpkg "github.com/fatedier/frp/pkg/util/net"
 	"github.com/fatedier/frp/pkg/util/util"
 
 	"verif/mc/drv"
@@ -579,6 +580,9 @@ func scenarios() {
 			var v int
 			fmt.Sscanf(f[1], "%d", &v)
 			s.Body = scStorm(v)
+		case "ilisten":
+			s.Body = scIListen
+			s.End = func(x *vs.Exec) string { return strings.Join(x.Obs, "\n") }
 		case "lane":
 			s.Body = scLane(f[1])
 			s.End = func(x *vs.Exec) string { return strings.Join(x.Obs, "\n") }
@@ -636,6 +640,52 @@ func scLane(variant string) func(x *vs.Exec) {
 	}
 }
 
+// ilisten: the in-process listener that hands visitor connections, ssh tunnels and virtual clients to their owner
+// (InternalListener): connections are put while the owner accepts and closes, in every order.
+type dummyConn struct {
+	net.Conn
+	closed bool
+}
+
+func (d *dummyConn) Close() error { d.closed = true; return nil }
+
+func scIListen(x *vs.Exec) {
+	l := netpkg.NewInternalListener()
+	var conns [2]*dummyConn
+	var putErr [2]error
+	accepted := 0
+	var wg sync.WaitGroup
+	vs.SetInterest(true)
+	wg.Add(1)
+	go func() {
+		defer wg.Done()
+		for {
+			c, err := l.Accept()
+			if err != nil {
+				return
+			}
+			accepted++
+			c.Close()
+		}
+	}()
+	for i := range conns {
+		i := i
+		conns[i] = &dummyConn{}
+		wg.Add(1)
+		go func() { defer wg.Done(); putErr[i] = l.PutConn(conns[i]) }()
+	}
+	wg.Add(1)
+	go func() { defer wg.Done(); l.Close() }()
+	wg.Wait()
+	vs.SetInterest(false)
+	for i, c := range conns {
+		if putErr[i] == nil && !c.closed {
+			vs.Fail("ilisten: connection %d was taken by the listener (no error) but neither accepted nor closed", i)
+		}
+	}
+	vs.Observe("ilisten accepted=%d errs=%v/%v", accepted, putErr[0] != nil, putErr[1] != nil)
+}
+
 func fieldsOf(m msg.Message) []string {
 	t := reflect.TypeOf(m).Elem()
 	var out []string
@@ -655,7 +705,7 @@ func main() {
 	if c == nil {
 		return
 	}
-	c.Rule("E1: (a) all single-field deviations over extreme-value alphabets (negative / huge integers, empty / 9000-char / control-character strings, nil / empty / 300-entry maps, nil / empty / 1000-entry lists, malformed addresses) of all 18 message types (NewProxy for all 8 proxy types) sent to the real frps as first message of a connection and on an established session, and of the server-to-client types sent by a model server to the real frpc; (a2) malformed user-side input on the tcpmux CONNECT port (14 Proxy-Authorization shapes x 2 hosts, 14 malformed request heads) and on the https port (a real ClientHello with each of its first 80 bytes set to 0xff / 0x00 or truncated there); after each case a bystander session, its tunnel, a fresh login and a fresh tunnel must work, no managed thread may have panicked (= process crash) and none may be stuck after teardown; (b) six concurrent mixed-traffic storms, the statistics collector of the dashboard switched on (registration / closure / groups / session cut; secret proxies, visitors and NAT-hole messages against closing proxies; re-login with work connections for dying sessions; user connections waiting for a work connection while the session is cut; NAT-hole sessions of two visitors starting, being answered and ending together; two users' traffic through two proxies while a third proxy comes and goes) and the control connection's request/response lanes with duplicated, late and too-late answers (3 deviations) under all schedules with at most B deviations (two default orders) with the happens-before detector on every struct-field map of the instrumented packages; non-trivial = distinct (position, type, field, value)")
+	c.Rule("E1: (a) all single-field deviations over extreme-value alphabets (negative / huge integers, empty / 9000-char / control-character strings, nil / empty / 300-entry maps, nil / empty / 1000-entry lists, malformed addresses) of all 18 message types (NewProxy for all 8 proxy types) sent to the real frps as first message of a connection and on an established session, and of the server-to-client types sent by a model server to the real frpc; (a2) malformed user-side input on the tcpmux CONNECT port (14 Proxy-Authorization shapes x 2 hosts, 14 malformed request heads) and on the https port (a real ClientHello with each of its first 80 bytes set to 0xff / 0x00 or truncated there); after each case a bystander session, its tunnel, a fresh login and a fresh tunnel must work, no managed thread may have panicked (= process crash) and none may be stuck after teardown; (b) six concurrent mixed-traffic storms, the statistics collector of the dashboard switched on (registration / closure / groups / session cut; secret proxies, visitors and NAT-hole messages against closing proxies; re-login with work connections for dying sessions; user connections waiting for a work connection while the session is cut; NAT-hole sessions of two visitors starting, being answered and ending together; two users' traffic through two proxies while a third proxy comes and goes) and the control connection's request/response lanes with duplicated, late and too-late answers, and the in-process listener (two puts, an accepting owner, a close) (3 deviations each), under all schedules with at most B deviations (two default orders) with the happens-before detector on every struct-field map of the instrumented packages; non-trivial = distinct (position, type, field, value)")
 	pool := vs.GetPool(c.Workers)
 	var names []string
 	wdummy := map[string]msg.Message{}
@@ -734,5 +784,6 @@ func main() {
 	for _, v := range []string{"one", "dup", "late", "after"} {
 		c.ExploreBoth("lane|"+v, 3, 0.25)
 	}
+	c.ExploreBoth("ilisten", 3, 0.5)
 	c.Finish()
 }
